@@ -485,6 +485,48 @@ theorem source_robofab_row_value_is_spec (hint acc : List (String × Val)) (v : 
   | newlineThenBlocks => rw [hc] at hk; cases hk
   | blockOrder => rw [hc] at hk; cases hk
 
+/-- **the feature statements, interpreted**: for every robofab lib - any blocks, classes or none, an order list that
+    is complete, incomplete, with repeated or unknown tags, or none at all - the text assembled by folding the
+    statements translated from the source (`String::new()`, then each statement by its conversion) is the model's
+    `featureText`; without an order list the source's fallback (`sorted`) reads as the order list of the sorted tags -/
+theorem source_robofab_features_eq_model (r : Robofab) :
+    featureTextOf Generated.RobofabConv.featureTable Generated.RobofabConv.featureFallbackOrder r =
+      featureText (withFallback Generated.RobofabConv.featureFallbackOrder r) := by
+  rw [source_robofab_table_eq_model.2.1]
+  exact featureTextOf_model _ r
+
+/-- C10's determinism clause for the converted feature text: two block maps holding the same blocks (the same
+    hash map iterated in two orders) give the same text, with or without an order list -/
+theorem source_robofab_features_deterministic (r : Robofab) (fs fs' : List (String × String))
+    (hp : fs'.Perm fs) (hn : (fs.map (·.1)).Nodup) :
+    featureTextOf Generated.RobofabConv.featureTable Generated.RobofabConv.featureFallbackOrder
+        { r with feats := some fs' } =
+      featureTextOf Generated.RobofabConv.featureTable Generated.RobofabConv.featureFallbackOrder
+        { r with feats := some fs } :=
+  featureTextOf_perm _ _ r fs fs' hp hn (by decide)
+
+/-- the same on the model's side: under the source's fallback the model's text does not depend on the order in
+    which the block map is handed to it -/
+theorem source_robofab_model_text_deterministic (r : Robofab) (fs fs' : List (String × String))
+    (hp : fs'.Perm fs) (hn : (fs.map (·.1)).Nodup) :
+    featureText (withFallback Generated.RobofabConv.featureFallbackOrder { r with feats := some fs' }) =
+      featureText (withFallback Generated.RobofabConv.featureFallbackOrder { r with feats := some fs }) := by
+  rw [← source_robofab_features_eq_model, ← source_robofab_features_eq_model]
+  exact source_robofab_features_deterministic r fs fs' hp hn
+
+-- non-vacuity: an incomplete order list with a repeated and an unknown tag; no order list (sorted); no blocks
+example : featureTextOf Generated.RobofabConv.featureTable Generated.RobofabConv.featureFallbackOrder
+    { classes := some "c", order := some ["b", "x", "b"], feats := some [("a", "A"), ("b", "B")] } = "c\nBB" := by
+  decide +kernel
+example : featureText (withFallback Generated.RobofabConv.featureFallbackOrder
+    { classes := some "c", order := some ["b", "x", "b"], feats := some [("a", "A"), ("b", "B")] }) = "c\nBB" := by
+  decide +kernel
+example : featureTextOf Generated.RobofabConv.featureTable Generated.RobofabConv.featureFallbackOrder
+    { order := some ["a"], feats := some [("b", "B"), ("a", "A")] } = "\nA" := by decide +kernel
+example : featureTextOf Generated.RobofabConv.featureTable Generated.RobofabConv.featureFallbackOrder
+    { classes := some "c", order := some ["a"] } = "c" := by decide +kernel
+example : [("b", "B"), ("a", "A")].Perm [("a", "A"), ("b", "B")] := List.Perm.swap _ _ _
+
 -- non-vacuity: a zone list is flattened, a scalar is copied, an absent unconditional entry clears the attribute
 example : getKey (convStep [("blueValues", .numss [[1, 2], [3, 4]])] [] ("blueValues", "postscriptBlueValues", .flattenIfPresent))
     "postscriptBlueValues" = some (.nums [1, 2, 3, 4]) := by decide +kernel
